@@ -228,7 +228,7 @@ class Attribute(_BaseAttribute):
                 data_attr_type = Attribute.Type(datatype)
                 if not self._can_be_casted(data_attr_type, self.type):
                     raise Attribute.TypeNotMatchingError(data, datatype, self.type)
-            self._data[key] = Vec(data)
+            self._data[key] = Vec(np.array(data, dtype=self.type.dtype)) # stored in the attribute's own type (like the dense storage): in-place component updates must not be truncated
         
         else:
             datatype = type(value)
